@@ -1373,8 +1373,28 @@ def read_grow(fn):
         F['extraStmts'] = 1
         return '{ ' + ', '.join(f'{k} := {b(v) if isinstance(v, bool) else v}' for k, v in F.items()) + ' }'
     _, mn, mx = [a.arg for a in fn.args.args]
+    # locals that merely name one of the two sizes (`n_functions = len(self.functions)`), assigned once: read as the size
+    size_alias = {}
+    counts = {}
+    for n_ in ast.walk(fn):
+        if isinstance(n_, ast.Name) and isinstance(n_.ctx, ast.Store):
+            counts[n_.id] = counts.get(n_.id, 0) + 1
+    for n_ in ast.walk(fn):
+        if isinstance(n_, ast.Assign) and len(n_.targets) == 1 and isinstance(n_.targets[0], ast.Name) and counts.get(n_.targets[0].id) == 1 \
+                and ast.unparse(n_.value) in ('len(self.functions)', 'self.n_terminals'):
+            size_alias[n_.targets[0].id] = '.nFunctions' if 'functions' in ast.unparse(n_.value) else '.nTerminals'
+
+    class _DropAliases(ast.NodeTransformer):
+        def visit_Assign(self, n_):
+            if len(n_.targets) == 1 and isinstance(n_.targets[0], ast.Name) and n_.targets[0].id in size_alias:
+                return None
+            return n_
+    import copy as _copy2
+    fn = ast.fix_missing_locations(_DropAliases().visit(_copy2.deepcopy(fn)))
 
     def iexp(e, draw):
+        if isinstance(e, ast.Name) and e.id in size_alias:
+            return size_alias[e.id]
         """integer expression over the draw, n_terminals and len(functions)"""
         if isinstance(e, ast.Constant) and type(e.value) is int and e.value >= 0:
             return f'(.lit {e.value})'
